@@ -283,6 +283,29 @@ def pick(lst, k):
     return lst[k % len(lst)]
 
 
+def resolve_idx(x, v):
+    """index spec -> int / None (see gen.ridx)"""
+    if not isinstance(x, dict):
+        return x
+    n = len(v)
+    if 'pc' in x:
+        return n * x['pc'] // 100
+    pts = [0]
+    prev = None
+    for i in range(n):
+        cur = tuple(id(s) for s in v.ansi_settings_at(i)) if n <= 400 else None
+        if i and cur != prev:
+            pts.append(i)
+        prev = cur
+    pts.append(n)
+    r = pts[x['pt'] % len(pts)] + x.get('d', 0)
+    if x.get('neg'):
+        r = r - n
+        if r >= 0:
+            r = -1
+    return r
+
+
 def _sets(op):
     """settings argument of an op; a caller may pre-build it (op['_S']) to inspect it afterwards"""
     return op['_S'] if '_S' in op else mk_settings(op['s'])
@@ -292,6 +315,8 @@ def apply_op(v, op, operand):
     """Apply one operation.  Mutable receiver + op['ip'] -> in-place form (returns v)."""
     name = op['op']
     mut = isinstance(v, AnsiString)
+    if name in ('apply', 'remove', 'slice', 'clip') and (isinstance(op.get('a'), dict) or isinstance(op.get('b'), dict)):
+        op = dict(op, a=resolve_idx(op.get('a'), v), b=resolve_idx(op.get('b'), v))
     ip = bool(op.get('ip')) and mut
     kw = {'inplace': True} if ip else {}
     if name == 'apply':
